@@ -69,7 +69,25 @@ def main():
                 res = None
             elif op == "inference":
                 q = Queries(conds(st["queries"]))
-                df = objs[st["mgr"]].inference(q, **st.get("kw", {}))
+                if st.get("hang"):
+                    # fault injection for replays of 'worker hung' schedules: the worker
+                    # processes of the listed query keys sleep past the join timeout
+                    import time as _t
+                    import inference.inference as _inf
+                    _orig = _inf.Inference._multi_inference_worker
+                    _hang = set(st["hang"])
+
+                    def _slow(self, index, query, d, timeout, _orig=_orig, _hang=_hang):
+                        if index in _hang:
+                            _t.sleep(60)
+                        return _orig(self, index, query, d, timeout)
+                    _inf.Inference._multi_inference_worker = _slow
+                    try:
+                        df = objs[st["mgr"]].inference(q, **st.get("kw", {}))
+                    finally:
+                        _inf.Inference._multi_inference_worker = _orig
+                else:
+                    df = objs[st["mgr"]].inference(q, **st.get("kw", {}))
                 res = [[_j(r["index"]), bool(r["result"]), bool(r["inference_timed_out"]),
                         bool(r["preprocessing_timed_out"]), str(r["query"])] for _, r in df.iterrows()]
             elif op == "consistency":
